@@ -84,6 +84,9 @@ func (g *gen) errorType(name string, typs []types.Type) ([][]types.Type, [][]typ
 		if !ok {
 			return nil, nil, fmt.Errorf("%s, argument number %d, %s, is not of type function", name, i, typ)
 		}
+		if sig.Variadic() {
+			return nil, nil, fmt.Errorf("%s, function number %d, %s, is variadic, which is not supported", name, i, typ)
+		}
 		params[i] = make([]types.Type, sig.Params().Len())
 		for j := range params[i] {
 			params[i][j] = sig.Params().At(j).Type()
